@@ -317,11 +317,8 @@ def validate_traces(module, cfg, traces, *, chunk=400, parallel=16, env=None, ti
         stats["distinct"] += r.distinct
         seen = {}
         for v in find_tagged(r.output, "TRACE"):
-            _, i, acc, far = v[:4]
-            seen[i] = {"accepted": bool(acc), "furthest": far, "viol": set()}
-        for v in find_tagged(r.output, "VIOL"):
-            _, i, clause = v[:3]
-            seen.setdefault(i, {"accepted": False, "furthest": -1, "viol": set()})["viol"].add(clause)
+            _, i, acc, far, vs = v[:5]
+            seen[i] = {"accepted": bool(acc), "furthest": far, "viol": set() if acc else set(vs)}
         if len([i for i in seen if 1 <= i <= len(trs)]) != len(trs):
             raise TLCError(f"trace validation: {len(seen)} verdicts for {len(trs)} traces ({module})\n{r.output[-2000:]}")
         for i, v in seen.items():
